@@ -4,7 +4,6 @@ import (
 	"encoding/json"
 	"errors"
 	"fmt"
-	"sort"
 	"strings"
 
 	"verif/harness/core"
@@ -46,20 +45,6 @@ func showDbOpt(d *pgdump.DatabaseDump) string {
 		return "~"
 	}
 	return showDb(d)
-}
-
-// a whole-cluster dump modulo databases without tables
-func showDumpNE(r *pgdump.DumpResult) string {
-	if r == nil {
-		return "ERR"
-	}
-	var parts []string
-	for i := range r.Databases {
-		if len(r.Databases[i].Tables) > 0 {
-			parts = append(parts, showDb(&r.Databases[i]))
-		}
-	}
-	return strings.Join(parts, "#")
 }
 
 func hexList(s string) []string {
@@ -104,9 +89,8 @@ func remoteCanon(mem map[string][]byte, opsArg string) string {
 	out = append(out, "dbs="+strings.Join(parts, ","))
 	var tl, cl []string
 	for _, db := range dbs {
-		ts := c.Tables(db.OID)
-		sorted := append([]pgdump.TableInfo(nil), ts...)
-		sort.SliceStable(sorted, func(i, j int) bool { return sorted[i].Filenode < sorted[j].Filenode })
+		// the listing as returned (filenode order since fixes/cluster/01): compared exactly, no sorting
+		sorted := c.Tables(db.OID)
 		tl = append(tl, fmt.Sprintf("%d[%s]", db.OID, showTIs(sorted)))
 		for _, t := range sorted {
 			attrs := c.Columns(db.OID, t.OID)
@@ -132,7 +116,7 @@ func remoteCanon(mem map[string][]byte, opsArg string) string {
 		dl = append(dl, showDbOpt(c.DumpDatabase(db.OID)))
 	}
 	out = append(out, "dump="+strings.Join(dl, "#"))
-	out = append(out, "all="+showDumpNE(c.DumpAll()))
+	out = append(out, "all="+showDump(c.DumpAll()))
 	// Summary JSON: the databases object
 	js, err := json.Marshal(c.Summary())
 	if err != nil {
@@ -181,10 +165,7 @@ func remoteCanon(mem map[string][]byte, opsArg string) string {
 					ol = append(ol, "~")
 				}
 			case "tn":
-				ts := c.TablesByName(string(core.Unhex(f[1])))
-				sorted := append([]pgdump.TableInfo(nil), ts...)
-				sort.SliceStable(sorted, func(i, j int) bool { return sorted[i].Filenode < sorted[j].Filenode })
-				ol = append(ol, showTIs(sorted))
+				ol = append(ol, showTIs(c.TablesByName(string(core.Unhex(f[1])))))
 			case "q":
 				t := &pgdump.TableInfo{OID: uint32(core.Atoi(f[2])), Filenode: uint32(core.Atoi(f[3]))}
 				ol = append(ol, showRows(c.Query(uint32(core.Atoi(f[1])), t, qopts(hexList(f[4]), core.Atoi(f[5])))))
